@@ -53,7 +53,7 @@ fn pkg_c() -> RegPackage {
   }
 }
 
-pub const N_SCENARIOS: usize = 17;
+pub const N_SCENARIOS: usize = 18;
 
 pub fn scenario(i: usize) -> Scenario {
   let u = |s: &str| url(s);
@@ -317,6 +317,23 @@ pub fn scenario(i: usize) -> Scenario {
       s.cached_only_empty = true;
       s
     }
+    17 => {
+      // two different packages resolved in one pass, both leading to a third
+      // through overlapping requirements: which of the two is handled first
+      // decides nothing - `^1.0` is resolved where the visit order meets it
+      let mut s = base(
+        "two-packages-in-one-pass-sharing-a-third-through-overlapping-requirements",
+        &[("https://x/root.ts", "import \"jsr:@s/p@1\";\nimport \"jsr:@s/q@1\";\n")],
+        &["https://x/root.ts"],
+      );
+      s.install = Box::new(|l| {
+        l.add_text("https://x/root.ts", "import \"jsr:@s/p@1\";\nimport \"jsr:@s/q@1\";\n");
+        RegPackage { name: "@s/p".into(), versions: vec![RegVersion::new("1.0.0", &[("/mod.ts", "import \"jsr:@s/a@^1.0\";\nimport \"./gone.ts\";\nexport const p = 1;\n")])], raw_meta: None }.install(l);
+        RegPackage { name: "@s/q".into(), versions: vec![RegVersion::new("1.0.0", &[("/mod.ts", "import \"jsr:@s/a@1.0.0\";\nimport \"https://jsr.io/@s/p/1.0.0/gone.ts\";\nexport const q = 1;\n")])], raw_meta: None }.install(l);
+        pkg_a().install(l);
+      });
+      s
+    }
     _ => unreachable!(),
   }
 }
@@ -473,6 +490,56 @@ fn body_susp(ids: Vec<usize>, allow_queued: bool, suspensions: bool) -> impl Fn(
   }
 }
 
+/// "identically across repeated runs within one process": the same scenario,
+/// the same (all-ready) schedule, the hooked hash-order sites pinned - built
+/// `REPEATS` times in a row. Every `HashMap` the builder creates gets fresh
+/// hasher keys each time, so an iteration order that leaks into the result at a
+/// site the hook does not cover shows up as two runs that differ. This part
+/// samples hasher states (it cannot enumerate them); the enumeration of orders
+/// at the known sites is the business of the other parts.
+const REPEATS: usize = 32;
+fn body_repeated(ch: &Ch) -> Run {
+  let mut run = Run::default();
+  let idx = ch.shape("scenario", N_SCENARIOS);
+  let queued = false;
+  let s = scenario(idx);
+  let first = run_build(&s, if queued { SchedMode::Gated } else { SchedMode::Immediate }, queued, ch, false);
+  for k in 1..REPEATS {
+    let again = run_build(&s, if queued { SchedMode::Gated } else { SchedMode::Immediate }, queued, ch, false);
+    run.evals += 1;
+    let case = |extra: Value| json!({"scenario": s.name, "world": s.describe, "queued_executor": queued, "run": k, "detail": extra});
+    for key in ["slots", "redirects", "roots", "imports", "mappings", "packages_with_deps", "yanked", "pending_slots", "has_node_specifier", "npm_dep_graph_result"] {
+      if again.obs[key] != first.obs[key] {
+        let (_, txt) = crate::props::c17::diff_detail(&again.obs[key], &first.obs[key]);
+        run.violate(
+          format!("repeated-run-differs@{}:{key}", s.name),
+          format!("run {k} of the same build in the same process gives another `{key}` than run 0: {txt}"),
+          case(json!({"run_0": first.obs[key], "this_run": again.obs[key]})),
+        );
+        break;
+      }
+    }
+    if again.locker_final != first.locker_final || again.locker_writes != first.locker_writes {
+      run.violate(format!("repeated-run-differs@{}:lockfile", s.name), format!("run {k} writes the lockfile differently from run 0"), case(json!({"run_0": first.locker_writes, "this_run": again.locker_writes})));
+    }
+    if again.load_log != first.load_log {
+      // the order of loader calls is not part of the result, but it is what
+      // the other parts' choice points hang on: report it as a count
+      run.count("repeats_whose_loader_calls_came_in_another_order", 1);
+    }
+    if !run.violations.is_empty() {
+      break;
+    }
+  }
+  run.state_key = hash_of(&("repeated", idx, queued));
+  run.nontrivial = true;
+  run.outcome_key = hash_of(&(idx, &first.obs.to_string()));
+  if ch.describe() {
+    run.sample = Some(json!({"scenario": s.name, "world": s.describe, "repeats": REPEATS, "loads": first.load_log}));
+  }
+  run
+}
+
 /// Generated worlds: every world of the core space, every schedule.
 fn body_worlds(space: crate::world::Space) -> impl Fn(&Ch) -> Run + Sync + Send {
   move |ch: &Ch| {
@@ -540,7 +607,7 @@ pub fn prop(tier: Tier) -> Prop {
   let parts = match tier {
     Tier::Quick => vec![Part {
       name: "schedules",
-      body: Box::new(body(vec![0, 1, 2, 3, 4, 5, 6, 8, 9, 10, 11, 12, 14, 15], false)),
+      body: Box::new(body(vec![0, 1, 2, 3, 4, 5, 6, 8, 9, 10, 11, 12, 14, 15, 17], false)),
       modes: vec![Mode::Full],
       what: "every completion order of the gated loader futures and every drain order of the builder's hash maps, inline executor",
     },
@@ -571,7 +638,7 @@ pub fn prop(tier: Tier) -> Prop {
     Tier::Thorough => vec![
       Part {
         name: "schedules",
-        body: Box::new(body(vec![0, 1, 2, 3, 4, 5, 6, 8, 9, 10, 11, 12, 14, 15], false)),
+        body: Box::new(body(vec![0, 1, 2, 3, 4, 5, 6, 8, 9, 10, 11, 12, 14, 15, 17], false)),
         modes: vec![Mode::Full],
         what: "every completion order and every drain order, inline executor",
       },
@@ -607,6 +674,15 @@ pub fn prop(tier: Tier) -> Prop {
       },
     ],
   };
+  let mut parts = parts;
+  // first: a result that differs between two identical runs makes every
+  // later part's replay diverge
+  parts.insert(0, Part {
+    name: "repeated-runs",
+    body: Box::new(body_repeated),
+    modes: vec![Mode::Full],
+    what: "every scenario built 32 times in a row in one process under the same schedule with the hooked sites pinned: fresh hasher keys for every map the builder creates; graph observation and lockfile writes must be identical (samples hasher states - sites the hook does not cover cannot be enumerated)",
+  });
   Prop {
     id: "C04",
     rule: "state = (collision world, executor, schedule); a schedule is the order in which the driver completes outstanding gated Loader futures / polls queued tasks plus the permutation in which each hash-map drain (dynamic branches, deferred loads) hands out its entries (feature-guarded hook). Every complete run's graph observation (slots incl. error text and referrers, redirects, packages), final lockfile content and multiset of lockfile writes must equal the run in which every future is ready immediately. distinct_outcomes counts distinct event orders; non-trivial = schedule with >= 3 completion events.".into(),
